@@ -32,3 +32,5 @@ MUTANTS = [
 ]
 MUTANTS.append(dict(name="cleanup-does-not-restore-registry", file='generator/client_generator.py', expect="R11.5", old='            if saved_registry is not None:\n                registry_path.write_bytes(saved_registry)\n', new=""))
 MUTANTS.append(dict(name="cleanup-does-not-save-registry", file='generator/client_generator.py', expect="R11.5", old='                if registry_path.is_file() and (core_dir == out_dir or out_dir in core_dir.parents):\n                    saved_registry = registry_path.read_bytes()\n', new=""))
+MUTANTS.append(dict(name='own-registry-entry-accumulates-old-codes', file='emitters/exceptions_emitter.py', expect='R11.1', old='        registry[client_name] = sorted(status_codes)\n', new='        registry[client_name] = sorted(set(status_codes) | set(registry.get(client_name, [])))\n'))
+MUTANTS.append(dict(name='registry-rescued-for-direct-child-only', file='generator/client_generator.py', expect='R11.5', old='(core_dir == out_dir or out_dir in core_dir.parents)', new='(core_dir == out_dir or core_dir.parent == out_dir)'))
